@@ -758,6 +758,8 @@ package runtime
 // chained hash table itself is stage 2) ----
 //@ func (*hashTable).find
 //@   trusted
+//@   pure
+//@   reads heap(hashTable), heap(hashTableSlot)
 //@   modifies nothing
 //@ func (*hashTable).full
 //@   trusted
@@ -862,7 +864,9 @@ package runtime
 //@   requires tblOK(t)
 //@   modifies nothing
 //@   ensures t.array != nil && t.array.len < len(t.array.values) ==> result == t.array.len && (result == 0 || !t.array.values[result-1].IsNil()) && t.array.values[result].IsNil()
-//@   loop 1: invariant l >= 0
+//@   ensures (t.array == nil || t.array.len >= len(t.array.values)) ==> t.hashTable.find(IntValue(int64(result + 1))).IsNil()
+//@   ensures (t.array == nil || t.array.len >= len(t.array.values)) ==> result == t.array.getLen() || !t.hashTable.find(IntValue(int64(result))).IsNil()
+//@   loop 1: invariant l == t.array.getLen() || !t.hashTable.find(IntValue(int64(l))).IsNil()
 
 // A traversal step: array positions first (in order), then the hash part from
 // its beginning; the key handed to the hash part is normalised.
